@@ -35,6 +35,16 @@ def scenarios(tier):
                         "threads": {"T1": [MENU[a]], "T2": [MENU[b]]}})
     out.append({"name": "Da||Da two documents", "init": "meta2", "formats": FORMATS, "pids": ("p1",),
                 "threads": {"T1": [MENU["Da"]], "T2": [MENU["Da"]]}})
+    # a delete-all walking two documents while a single-format delete removes the one it has listed first (one of the two
+    # formats is listed first - both are run)
+    out.append({"name": "Df||Da two documents", "init": "meta2", "formats": FORMATS, "pids": ("p1",),
+                "threads": {"T1": [MENU["Df"]], "T2": [MENU["Da"]]}})
+    out.append({"name": "Dff||Da two documents", "init": "meta2", "formats": FORMATS, "pids": ("p1",),
+                "threads": {"T1": [MENU["Dff"]], "T2": [MENU["Da"]]}})
+    # delete_object of a pid that has documents but NO object (it raises) beside a writer / reader of a document
+    for other in ("M2", "R", "Df"):
+        out.append({"name": "DO||%s pid has a document but no object" % other, "init": "meta", "formats": FORMATS, "pids": ("p1",),
+                    "threads": {"T1": [MENU["DO"]], "T2": [MENU[other]]}})
     out.append({"name": "M1||R||Df from meta (pre-emption bound 2)", "init": "meta", "bound": 2, "formats": FORMATS,
                 "pids": ("p1",), "threads": {"T1": [MENU["M1"]], "T2": [MENU["R"]], "T3": [MENU["Df"]]}})
     out.append({"name": "Df||Df||M1f from meta (pre-emption bound 2)", "init": "meta", "bound": 2, "formats": FORMATS,
